@@ -379,6 +379,7 @@ func walkSimple(doc any, p jp.Expr) (any, bool) {
 }
 
 func propC17(cx *sim.Ctx) {
+	sim.Declare([]string{"reference_has_matches", "reference_has_several_matches", "target_descent", "target_wildcard", "target_union", "target_negative_index", "target_slice", "target_filter", "target_root_target", "cut_inside_string", "cut_inside_number", "cut_inside_literal", "reference_unusable"}, []string{})
 	c := drawMatchCase(cx.T)
 	cx.Render(c.render)
 	cx.Key(c.Input)
